@@ -54,6 +54,10 @@ Inductive snip :=
 | SnUseLeak
 | SnUseFiber                                   (* print(fw.has_finished()); *)
 | SnProbeTotal                                 (* print(total);  `total` is never declared by any snippet *)
+| SnSwallowOk                                  (* a run that ends SUCCESSFULLY with the exception flag still set: a finally-only
+                                                  try entered by a throw whose finally block returns *)
+| SnParkFin                                    (* the same through a fiber that parks itself (Fiber.yield) inside the finally
+                                                  block it entered by a throw and is never resumed *)
 | SnImport (m : modk)
 | SnUseMod (m : modk)
 | SnReset.
@@ -123,6 +127,8 @@ Definition render (s : snip) : string :=
   | SnUseLeak => "print(c());"
   | SnUseFiber => "print(fw.has_finished());"
   | SnProbeTotal => "print(total);"
+  | SnSwallowOk => "print((|| { try { throw 1; } finally { return 8; } })());"
+  | SnParkFin => "print(Fiber.new(|| { try { throw 1; } finally { Fiber.yield(3); } }).call());"
   | SnImport m => "import """ ++ mod_path m ++ """ as " ++ mod_alias m ++ "; print(" ++ mod_alias m ++ ".v);"
   | SnUseMod m => "print(" ++ mod_alias m ++ ".v);"
   | SnReset => "RESET"
@@ -173,6 +179,8 @@ Definition snip_of_group (g : list N) : snip :=
   | [13%N] => SnUseLeak
   | [17%N] => SnUseFiber
   | [18%N] => SnProbeTotal
+  | [19%N] => SnSwallowOk
+  | [20%N] => SnParkFin
   | [14%N; m] => SnImport (modk_of_N m)
   | [15%N; m] => SnUseMod (modk_of_N m)
   | _ => SnReset
